@@ -255,6 +255,24 @@ nni_aio_reap(nni_aio *aio)
 		env_nreap++;
 	}
 }
+/* for harnesses that know which destructor is due: calling it directly avoids a
+ * function-pointer call that CBMC expands over every void(*)(void *) in the program */
+int
+env_reap_pending(void)
+{
+	return env_nreap;
+}
+void *
+env_reap_take(int i)
+{
+	void *it = env_reapq[i].item;
+	for (int k = i; k + 1 < ENV_MAXREAP; k++) {
+		if (k + 1 < env_nreap)
+			env_reapq[k] = env_reapq[k + 1];
+	}
+	env_nreap--;
+	return it;
+}
 int
 env_reap_run(void)
 {
